@@ -17,8 +17,11 @@ res = {}
 for lf in sorted(glob.glob(V + "/.build/logs/benign*.log")):
     cur = None
     for line in open(lf):
-        m = re.match(r"#### BEN(\d) (\d)", line)
-        if m: cur = "set%s-%s" % m.groups(); res.setdefault(cur, {}); continue
+        if line.startswith("####"):
+            m = re.match(r"#### BEN(\d) (\d)", line)
+            cur = ("set%s-%s" % m.groups()) if m else None      # (superseded runs are marked BENxOLD)
+            if cur: res.setdefault(cur, {})
+            continue
         m = re.match(r"== (C\d+) rc=(\d+)", line)
         if m and cur: res[cur][m.group(1)] = int(m.group(2))
 with open(V + "/seeded/benign/README.md", "w") as f:
@@ -38,5 +41,9 @@ with open(V + "/seeded/benign/README.md", "w") as f:
             note = (cand[0] if cand else "")[:200].replace("|", "/")
         f.write("| %s | %s | %s |\n" % (sid, note, ", ".join("%s:%d" % (p, rc) for p, rc in sorted(res[sid].items()))))
     bad = [(sid, p) for sid in res for p, rc in res[sid].items() if rc == 1]
-    f.write("\nFalse alarms (exit 1): %s\n" % (", ".join("%s on %s" % x for x in bad) if bad else "none"))
+    f.write("\nFalse alarms (exit 1) with the checks as they are now: %s\n" % (", ".join("%s on %s" % x for x in bad) if bad else "none"))
+    f.write("\nHistory: the first run of set1-1 (the two decoders merged into one helper) raised a false alarm in seven checks, all from\n"
+            "one assertion: the call-graph closure of the C16 wipe obligations followed the helper into polyseed_phrase_decode, which the\n"
+            "decoder harness replaces by a stub, and demanded a wipe of its idx[] array. The stop set of the closure was corrected\n"
+            "(vflib/core.py) and the patch re-run: quiet.\n")
 print(res)
